@@ -170,6 +170,27 @@ func genRules(rnd *rand.Rand, ipv uint8, sg *polgen.SetGen, actions []string, ma
 			out = append(out, r)
 			continue
 		}
+		if chance(rnd, 14) {
+			// source-side named ports (positive or negated) in an otherwise wide rule, so that the verdict hinges on
+			// (source ip, protocol, SOURCE port) membership
+			pr := polgen.Pick(rnd, []string{"tcp", "udp"})
+			num := 6
+			if pr == "udp" {
+				num = 17
+			}
+			r := &proto.Rule{Action: polgen.Pick(rnd, actions), Protocol: polgen.ProtoByName(pr)}
+			switch rnd.Intn(3) {
+			case 0:
+				r.SrcNamedPortIpSetIds = []string{sg.PortSet([]int{num})}
+			case 1:
+				r.NotSrcNamedPortIpSetIds = []string{sg.PortSet([]int{num})}
+			default:
+				r.SrcNamedPortIpSetIds = []string{sg.PortSet([]int{num})}
+				r.DstPorts = []*proto.PortRange{{First: 80, Last: 80}, {First: 8000, Last: 8100}}
+			}
+			out = append(out, r)
+			continue
+		}
 		out = append(out, commonRule(rnd, ipv, sg, actions))
 	}
 	return out
